@@ -26,6 +26,19 @@ ASSUME \A t \in {<<>>, <<65>>, <<84, 71, 67>>, <<0, 255, 110, 78, 65, 99>>} :
           /\ RevComp(RnaPairs, RevComp(RnaPairs, t)) = t
 ASSUME SortedSeq({5, 1, 200}) = <<1, 5, 200>> /\ SortedSeq({}) = << >>
 
+\* closed forms for repeated units = the definitions on the written-out sequence; the two GC
+\* acceptance rules agree where both apply (exact fraction on the 10^-6 grid)
+ASSUME \A u \in {<<71>>, <<65>>, <<71, 65>>, <<65, 67, 71, 84>>, <<67, 65, 65, 71, 99>>, <<84, 71, 65, 65, 65, 71, 67>>} :
+         \A r \in 0..7 : \A step \in {1, 3} :
+           LET t == Repeat(u, r) IN
+           /\ RepSampled(u, r, step) = Len(Sampled(t, step))
+           /\ RepGcCount(u, r, step) = GcCount(Sampled(t, step))
+           /\ Len(Sampled(t, step)) > 0 =>
+                 LET c == GcCount(Sampled(t, step))  n == Len(Sampled(t, step)) IN
+                 /\ FixedFloor(c, n) = (c * Scale) \div n
+                 /\ GcRepOk(u, r, step, (c * Scale) \div n) /\ GcOk(t, step, (c * Scale) \div n)
+                 /\ ~GcRepOk(u, r, step, (c * Scale) \div n + 3) /\ ((c * Scale) \div n >= 2 => ~GcRepOk(u, r, step, (c * Scale) \div n - 2))
+
 VARIABLES seq, minlen, index, codon, pend, found, out, pc
 vars == <<seq, minlen, index, codon, pend, found, out, pc>>
 
